@@ -55,6 +55,13 @@ type Check struct {
 	Workers int
 	// Bound describes the bound completed per tier.
 	Bound map[string]string
+	// Setup builds the frames every case of the check starts from (executed under a panic guard
+	// before Run; a panic in the code under test while doing so is a violation, replayed by running Setup again).
+	Setup func()
+}
+
+type setupDesc struct {
+	Setup bool `json:"setup_panic"`
 }
 
 var registry = map[string]*Check{}
@@ -362,13 +369,27 @@ func WorkerMain(id, tier string, shard, nshards int, outPath string) int {
 		nontrivial: map[uint64]struct{}{}, outcomes: map[string]int64{}}
 	ctx.res.Extra = map[string]int64{}
 	ctx.res.Known = map[string]known{}
+	setupOK := true
+	if chk.Setup != nil {
+		if fail := Guard(func() *Failure { chk.Setup(); return nil }); fail != nil {
+			setupOK = false
+			fail.Msg = "while building the frames the check starts from: " + fail.Msg
+			if shard == 0 {
+				ctx.Report(setupDesc{Setup: true}, fail)
+			}
+			ctx.outcomes["setup-panic"]++
+			ctx.outcomes["setup-panic-2"]++
+		}
+	}
 	func() {
 		defer func() {
 			if r := recover(); r != nil {
 				ctx.res.Panic = fmt.Sprintf("%v\n%s", r, debug.Stack())
 			}
 		}()
-		chk.Run(ctx)
+		if setupOK {
+			chk.Run(ctx)
+		}
 	}()
 	ctx.res.Nontrivial = int64(len(ctx.nontrivial))
 	ctx.res.NtCapped = ctx.ntCapped
@@ -695,6 +716,16 @@ func ReplayMain(path string) int {
 	if chk == nil || chk.Replay == nil {
 		fmt.Fprintf(os.Stderr, "no replay for %s\n", rf.Property)
 		return 2
+	}
+	var sd setupDesc
+	if json.Unmarshal(rf.Desc, &sd) == nil && sd.Setup && chk.Setup != nil {
+		fail := Guard(func() *Failure { chk.Setup(); return nil })
+		if fail == nil {
+			fmt.Printf("replay %s: setup passes\n", path)
+			return 0
+		}
+		fmt.Printf("replay %s: FAILS\n%s\n", path, fail.Msg)
+		return 1
 	}
 	fail := Guard(func() *Failure { return chk.Replay(rf.Desc) })
 	if fail == nil {
